@@ -13,6 +13,16 @@ CLAIMED = {
             "Trusted: TLC/SANY, the transcription of 'case-insensitive bidirectional table' into EnumMap.tla, member lists "
             "read from each class's own __dict__, status tables exported as data.",
             "TLA+ lookup semantics model-checked with TLC + exhaustive trace validation of recorded lookups", "5/C19"),
+    "C12": ("socket",
+            "SocketIO.tla (contract + the receive/send loops as written) is model-checked exhaustively for every chunk "
+            "composition, EOF and error position of frames with bodies 0..8 (real header/read size) and of a scaled instance "
+            "whose read size is below the header size, incl. termination under fairness (R1); TLC then enumerates every "
+            "schedule of <= 3 calls with every fault position (R2) and each, plus boundary-class schedules for frames up to "
+            "65559 bytes, is executed by the real Socket over a scripted raw socket and judged by TraceSocket.tla (R3).",
+            "Trusted: TLC, the scripted raw socket (vf/fakesock.py), byte equality of large frames computed by the harness. "
+            "Only behaviours up to the explored schedules are covered for the implementation; the model result is exhaustive "
+            "within its constants.",
+            "TLA+ contract/design model checked with TLC; TLC-generated schedules replayed into the code; recorded executions validated against the spec", "5/C12"),
 }
 
 PENDING_REASON = "check not built yet in this round (construction order in DESIGN.md section 9); no claim is made"
@@ -48,6 +58,8 @@ def build():
         "engines": [
             {"name": "enum", "path": "spec/EnumMap.tla spec/EnumMapModel.tla spec/TraceEnum.tla vf/props/c19.py",
              "serves_properties": ["C19"], "kind_free_text": "TLA+ semantics + TLC trace validation of recorded lookups"},
+            {"name": "socket", "path": "spec/SocketIO.tla spec/TraceSocket.tla vf/props/c12.py vf/fakesock.py",
+             "serves_properties": ["C12"], "kind_free_text": "TLA+ model of the byte-stream loops; schedules from TLC replayed into Socket; trace validation"},
         ],
         "checks": checks,
         "not_applicable": na,
